@@ -69,8 +69,10 @@ class Oracle:
     def bad(self, sig, what):
         raise Violation(sig, what)
 
-    def push(self, rid):
-        self.queue.append((self.now, self.seq, rid)); self.seq += 1
+    def push(self, rid, at=None):
+        # one pending wake-up per routine: scheduling again replaces the older one (as in RT queues)
+        self.queue = [e for e in self.queue if e[2] != rid]
+        self.queue.append((self.now if at is None else at, self.seq, rid)); self.seq += 1
 
     def release(self, lst):
         for r in lst:
@@ -256,7 +258,7 @@ class Oracle:
                 r = self.last_res or ''
                 if r.startswith('v:n'):
                     t, rid = self.tick_of
-                    self.queue.append((t + int(r[3:]), self.seq, rid)); self.seq += 1
+                    self.push(rid, t + int(r[3:]))
         if x[0] == 'rop' and (res == 'e:RoutineException') != bool(recs and recs[-1][5]):
             self.bad('c11:harness', 'rop result mismatch')
         for ent in log.split(' ') if log else []:
